@@ -191,6 +191,18 @@ def fam_outage(tag, durations_ms):
     s.regall().mode("t1", {"k": "sub_error"}).mode("t1", {"k": "garbage", "variant": 1}, "reg").notify("l1")
     s.sleep(1500).mode("t1", ACCEPT).mode("t1", ACCEPT, "reg").delivered("t1").probe()
     out.append(s.done())
+    # subscription error and the tower cannot renew for longer than the retry window (answers garbage / is away): the
+    # retrier gives up, idles, and renews at the automatic retry
+    for how in ("garbage", "down"):
+        s = Sc("%s-sub-renew-giveup-%s" % (tag, how), 1, fam="outage", covers=["sub_error", "renewal", "giveup"])
+        s.regall().mode("t1", {"k": "sub_error"}).mode("t1", {"k": "garbage", "variant": 1}, "reg").notify("l1")
+        if how == "down":
+            s.down("t1")
+        s.sleep(giveup_bound_ms() - 2500).retry("t1").probe().mode("t1", ACCEPT).mode("t1", ACCEPT, "reg")
+        if how == "down":
+            s.up("t1")
+        s.delivered("t1").probe()
+        out.append(s.done())
     # subscription error on the retry path
     s = Sc("%s-sub-retry" % tag, 1, fam="outage", covers=["sub_error", "renewal"])
     s.regall().down("t1").notify("l1").queue("t1", [{"k": "sub_error"}]).up("t1").delivered("t1").probe()
@@ -283,6 +295,49 @@ def fam_duplicates(tag):
             s.up("t1")
         s.mode("t1", ACCEPT).notify("l2").delivered("t1").probe()
         out.append(s.done())
+    return out
+
+
+def fam_abandon(tag):
+    """abandontower: all and only the abandoned tower's records go; what the other towers hold (accepted, pending,
+    invalid, with the data needed to send it again) stays"""
+    out = []
+    # t2 holds one appointment of each kind; t1 shares none / some of the data; t1 is abandoned
+    for share in (False, True):
+        s = Sc("%s-ab-other-%s" % (tag, "shared" if share else "own"), 2, fam="abandon", covers=["abandon"])
+        s.regall().mode("t2", {"k": "reject"})
+        if share:
+            s.mode("t1", {"k": "reject"})
+        s.notify("l1").mode("t2", ACCEPT).mode("t1", ACCEPT).notify("l2").down("t2")
+        if share:
+            s.down("t1")
+        s.notify("l3").probe().abandon("t1").probe().kill().restart().probe()
+        s.up("t2").delivered("t2").notify("l4").probe()
+        out.append(s.done())
+    # abandoning a tower that is being retried; abandoning an unknown tower; registering again afterwards
+    s = Sc("%s-ab-retried" % tag, 2, fam="abandon", covers=["abandon@running"])
+    s.regall().down("t1").notify("l1").sleep(1300).abandon("t1").abandon("t1").probe().up("t1").notify("l2").sleep(1500)
+    s.reg("t1").notify("l3").probe()
+    out.append(s.done())
+    return out
+
+
+def fam_misbehaving_late(tag):
+    """a tower flagged as misbehaving stays flagged (and is not sent to) whatever is reported about it afterwards: answers
+    to requests that were in flight when it was caught, a failed registertower, a retry asked for it"""
+    out = []
+    for late in ("sub_error", "garbage", "reject", "accept"):
+        s = Sc("%s-misb-late-%s" % (tag, late), 1, fam="misbehaving_late", covers=["misbehaving:late_" + late])
+        s.regall().mode("t1", {"k": "accept", "hold": True}).notify("l1", wait=False).notify("l2", wait=False)
+        s.step(op="wait_req", t="t1", count=3, arrival=True, timeout_ms=4000)
+        s.step(op="release", t="t1", beh={"k": "badsig"}).sleep(150).step(op="release", t="t1", beh=dict(ADD_CLASS[late][0]))
+        s.mode("t1", ACCEPT).mode("t1", ACCEPT, "reg").wait_for("l1").wait_for("l2").sleep(2500).probe()
+        s.notify("l3").probe().kill().restart().probe()
+        out.append(s.done())
+    s = Sc("%s-misb-late-refused" % tag, 1, fam="misbehaving_late", covers=["misbehaving:late_refused"])
+    s.regall().mode("t1", {"k": "badsig"}).notify("l1").down("t1").reg("t1").retry("t1").probe().up("t1")
+    s.mode("t1", ACCEPT).reg("t1").notify("l2").sleep(1500).probe()
+    out.append(s.done())
     return out
 
 
@@ -593,7 +648,8 @@ def validate_many(names, sdir, wd, shard=6, par=10):
                 f.write(text)
             f.write(EOF_LINE)
         # as common.validate_trace, with a JVM that does not grab every core (many validators run side by side)
-        r = tlc("Trace_Client", "Trace_Client.cfg", os.path.join(vdir, "w%d" % idx), workers=1, timeout=VALIDATE_TIMEOUT,
+        r = tlc("Trace_Client", os.environ.get("TRACE_CLIENT_CFG", "Trace_Client.cfg"), os.path.join(vdir, "w%d" % idx),
+                workers=1, timeout=VALIDATE_TIMEOUT,
                 env_extra={"TRACE": cat, "JAVA_TOOL_OPTIONS": "-Xss1g -Xmx3g -XX:ParallelGCThreads=2 -XX:CICompilerCount=2 "
                                                               "-Dtlc2.tool.queue.IStateQueue=StateDeque"})
         tags, consumed = None, 0
@@ -619,13 +675,13 @@ def validate_many(names, sdir, wd, shard=6, par=10):
     return tags_of, lines_total[0]
 
 
-# panic sites -> (finding tag, property that owns it)
+# panic sites -> (finding tag, properties that own it); an abort tag reads "<site> <message>" or "poisoned:<site>"
 ABORT_SITES = [
-    (re.compile(r"net/http\.rs:141"), "S14", ("C14", "C05")),
+    (re.compile(r"net/http\.rs:\d+:\d+ .*(Result::unwrap|InvalidSignature|Err)"), "S14", ("C14", "C05")),
     (re.compile(r"wt_client\.rs:\d+"), "S15p", ("C05",)),
-    (re.compile(r"retrier\.rs:48\d:\d+"), "S21", ("C05",)),
+    (re.compile(r"retrier\.rs:\d+:\d+ .*Option::unwrap"), "S21", ("C05",)),
 ]
-SECONDARY = re.compile(r"(main\.rs|retrier\.rs):\d+")   # lock().unwrap() on the poisoned mutex: consequence, not cause
+SECONDARY = re.compile(r"^poisoned:")   # lock().unwrap() on the poisoned mutex: consequence, not cause
 
 
 def owner_tags(pid, tags):
@@ -743,10 +799,13 @@ def classify(pid, tags):
                 if rx.search(what):
                     fid = f
             if fid is None:
-                if SECONDARY.search(what) and (devs & {"S15p", "S14", "S21"}):
-                    continue        # lock().unwrap() on the poisoned mutex: consequence of S15
-                if pid == "C14":
-                    out.append((None, "abort:" + what, "panic at " + what, ln))
+                if SECONDARY.search(what):
+                    continue        # lock().unwrap() on the poisoned mutex: the consequence of another panic
+                if pid in ("C14", "C05"):
+                    # a panic nobody has explained yet: the client does not survive (C14) and loses what the task was
+                    # about to record (C05)
+                    site = what.split(" ")[0]
+                    out.append((None, "abort:" + re.sub(r":\d+:\d+$", "", site), "panic at " + what, ln))
                 continue
             key = "abort:" + fid
             if pid in [pr for rx, f, props in ABORT_SITES if f == fid for pr in props]:
@@ -868,7 +927,7 @@ def design_level(pid, tier, wd, stats):
     else:
         runs.append(("safety_1x1", mc_consts(1, 1, MaxReg=mreg), invs, None, "Spec"))
         runs.append(("safety_2x2", mc_consts(2, 2, MaxNotify=1, MaxBad=1, MaxRetry=0), invs, None, "Spec"))
-        runs.append(("safety_2x1", mc_consts(2, 1, MaxConc=1), invs, None, "Spec"))
+        runs.append(("safety_2x1", mc_consts(2, 1, MaxConc=1, MaxRetry=0), invs, None, "Spec"))
         runs.append(("safety_1x2", mc_consts(1, 2), invs, None, "Spec"))
         if pid == "C13":
             runs.append(("live_1x2", mc_consts(1, 2, MaxNotify=1, RegKinds='{"garbage"}'), None, ["Delivered"], "LiveSpec"))
